@@ -97,6 +97,9 @@ func vfNewGateEnv(kind string, proto int, coalesce bool) (*vfGateEnv, error) {
 	}
 	s, d, err := vfSingleNodeSession(e.node, proto, func(c *ClusterConfig) {
 		c.Timeout = 400 * time.Millisecond
+		if strings.HasSuffix(kind, "answer_while_writing") {
+			c.Timeout = time.Second
+		}
 		c.ConnectTimeout = 700 * time.Millisecond
 		c.StreamObserver = &vfGateObserver{sc: e.sc}
 		if coalesce {
@@ -105,14 +108,26 @@ func vfNewGateEnv(kind string, proto int, coalesce bool) (*vfGateEnv, error) {
 				// a long coalescing window: the cancellation falls between enqueue and flush
 				c.WriteCoalesceWaitTime = 40 * time.Millisecond
 			}
+			if strings.HasSuffix(kind, "answer_while_writing") {
+				c.WriteCoalesceWaitTime = 60 * time.Millisecond
+			}
 		}
 	})
 	if err != nil {
 		return nil, err
 	}
 	e.s = s
+	// no heartbeat on the connection under test (recognised by its error handler): a gate scenario may
+	// last longer than the first beat's second, and the allocator sample at its end assumes nothing in flight
+	h := &vfConnNopHandler{closedCh: make(chan struct{})}
+	e.sc.OnDur = func(point string, c *Conn, d time.Duration) time.Duration {
+		if eh, _ := c.errorHandler.(*vfConnNopHandler); eh == h {
+			return time.Hour
+		}
+		return d
+	}
 	e.sc.BindSession(s)
-	conn, err := s.connect(s.ctx, s.ring.allHosts()[0], &vfConnNopHandler{closedCh: make(chan struct{})})
+	conn, err := s.connect(s.ctx, s.ring.allHosts()[0], h)
 	if err != nil {
 		s.Close()
 		return nil, err
@@ -527,6 +542,57 @@ var vfGateScenarios = map[string]func(e *vfGateEnv) string{
 		}
 		return ""
 	},
+	// C01: "each caller receives the response the server sent for its own request": two requests are flushed
+	// in one coalesced batch; the socket takes the first frame whole and stalls on the second, so the node
+	// answers the first request while its caller still waits for the flush to be reported (longer than the
+	// request timeout). The receiver has that response in hand before the caller's own timer even starts:
+	// the caller must get it.
+	"answer_while_writing": func(e *vfGateEnv) string {
+		if _, ok := e.conn.w.(*writeCoalescer); !ok {
+			return ""
+		}
+		idA := int(atomic.LoadInt64(&e.nextReq)) + 1
+		hdr := 8
+		if e.proto > 2 {
+			hdr = 9
+		}
+		lenA := hdr + 4 + len(fmt.Sprintf("tok_%d_prompt", idA)) + 2 + 1
+		hold, held := make(chan struct{}), make(chan struct{})
+		e.mc.SetFault(&vfWriteFault{FailAtByte: -1, StallAtByte: -1, HoldAtByte: int64(len(e.mc.Written()) + lenA), Hold: hold, Held: held})
+		e.start("prompt", false)
+		time.Sleep(2 * time.Millisecond)
+		idB, _, _ := e.start("prompt", false)
+		select {
+		case <-held:
+		case <-time.After(vfGateWait):
+			close(hold)
+			return "the batch did not reach the socket"
+		}
+		e.tr.Emit("env_held", "conn", e.connID)
+		t0 := time.Now()
+		inHand := false
+		for i := 0; i < 3000 && !inHand; i++ {
+			for _, ev := range e.tr.Events() {
+				if ev["ev"] == "r_body" && ev["req"] == idA && ev["err"] == "none" {
+					inHand = true
+				}
+			}
+			time.Sleep(time.Millisecond)
+		}
+		if !inHand {
+			close(hold)
+			return "the first request's answer did not arrive while the batch was stuck"
+		}
+		e.tr.Emit("env_expect_resp", "req", idA)
+		if d := 1300*time.Millisecond - time.Since(t0); d > 0 {
+			time.Sleep(d) // longer than the request timeout (1 s)
+		}
+		e.tr.Emit("env_unhold", "conn", e.connID)
+		close(hold)
+		e.awaitRet(idA, 3*time.Second)
+		e.awaitRet(idB, 3*time.Second)
+		return ""
+	},
 	// C07: after a torn frame, another caller tries to write before the failing caller closes
 	"write_after_partial": func(e *vfGateEnv) string {
 		e.mc.SetFault(&vfWriteFault{FailAtByte: int64(len(e.mc.Written())) + 7, StallAtByte: -1})
@@ -554,13 +620,13 @@ func TestVfConnGates(t *testing.T) {
 	if vfOutDir() == "" {
 		t.Skip("VF_OUT not set")
 	}
-	names := []string{"closer_before_select", "closer_vs_giveup", "recv_vs_giveup", "late_answer_after_timeout", "two_closers", "write_after_partial", "cancel_while_queued", "cancel_while_writer_blocked", "undo_window", "frame_before_addcall", "handshake_faults"}
+	names := []string{"closer_before_select", "closer_vs_giveup", "recv_vs_giveup", "late_answer_after_timeout", "two_closers", "write_after_partial", "cancel_while_queued", "cancel_while_writer_blocked", "answer_while_writing", "undo_window", "frame_before_addcall", "handshake_faults"}
 	k := 0
 	var inconclusive []string
 	for _, name := range names {
 		for _, proto := range []int{2, 4} {
 			for _, coalesce := range []bool{false, true} {
-				if name != "write_after_partial" && name != "cancel_while_queued" && name != "cancel_while_writer_blocked" && coalesce && proto == 2 {
+				if name != "write_after_partial" && name != "cancel_while_queued" && name != "cancel_while_writer_blocked" && name != "answer_while_writing" && coalesce && proto == 2 {
 					continue
 				}
 				e, err := vfNewGateEnv("gate:"+name, proto, coalesce)
